@@ -176,6 +176,7 @@ func (w *wireRig) open() error {
 			}
 			w.watch(s, dh)
 			w.S, w.H = s, dh
+			s.SetUnmarshaller(sess.SharedUnmarshaller(!cfg.NonStrict)) // one unmarshaller object for all sessions of the application
 			ready <- s.Run()
 		}
 		c, err := net.Dial("tcp", sa.addr)
@@ -224,11 +225,12 @@ func (w *wireRig) open() error {
 	}
 	w.watch(s, h)
 	w.S, w.H = s, h
+	s.SetUnmarshaller(sess.SharedUnmarshaller(!cfg.NonStrict))
 	w.stop = append(w.stop, ini.Close, func() { conn.Close() })
+	go func() { _ = ini.Serve() }() // (before Run: with a queue of size 0 the Logon can only leave once somebody takes it)
 	if err := s.Run(); err != nil {
 		return err
 	}
-	go func() { _ = ini.Serve() }()
 	return nil
 }
 
@@ -274,8 +276,73 @@ func runWire(sc *sess.Scenario) (recs []interface{}, failure string) {
 		}
 	}()
 	recs = append(recs, sess.InitObs{K: "init", ID: sc.ID, Cfg: sc.Cfg})
-	for i := range sc.Steps {
+	digest := func(raws [][]byte) []sess.Digest {
+		outs := []sess.Digest{}
+		for _, raw := range raws {
+			d := sess.MakeDigest(raw)
+			d.T = w.ms()
+			for j, old := range w.all {
+				if bytes.Equal(old, raw) {
+					d.DupOf = j + 1
+					break
+				}
+			}
+			w.all = append(w.all, raw)
+			outs = append(outs, d)
+		}
+		return outs
+	}
+	for i := 0; i < len(sc.Steps); i++ {
 		a := sc.Steps[i]
+		if a.Pipe && w.S != nil {
+			// a pipelined batch: one write, outputs attributed by content; the steps before the last one change neither the
+			// logged-on state nor the context (damaged messages, TestRequests), so they carry the observations made before the write
+			j := i
+			var batch []byte
+			for j < len(sc.Steps) && sc.Steps[j].Pipe {
+				b := sc.Steps[j]
+				batch = append(batch, sess.Inbound(&b, "PEER", "SRV", tsNow())...)
+				j++
+			}
+			t0 := w.ms()
+			logged0, ctx0, hctx0 := w.S.IsLogged(), w.S.Context().Err() != nil, w.H.Context().Err() != nil
+			_ = w.peer.SetWriteDeadline(time.Now().Add(time.Second))
+			_, _ = w.peer.Write(batch)
+			outs := digest(w.settle())
+			per := make([][]sess.Digest, j-i)
+			for k := range per {
+				per[k] = []sess.Digest{}
+			}
+			for _, d := range outs {
+				at := j - i - 1
+				for k := i; k < j; k++ {
+					b := sc.Steps[k]
+					if (d.Ty == "3" && d.RefSeq == b.Seq) || (d.Ty == "0" && b.A == "testreq" && len(d.Trid) > 0 && string(sess.IDBytes(d.Trid)) == string(sess.IDBytes(b.ID))) ||
+						(d.Ty == "5" && b.A == "logout") {
+						at = k - i
+						break
+					}
+				}
+				per[at] = append(per[at], d)
+			}
+			w.mu.Lock()
+			evs := w.evs
+			w.evs = nil
+			w.mu.Unlock()
+			if evs == nil {
+				evs = []sess.EvObs{}
+			}
+			for k := i; k < j; k++ {
+				o := sess.StepObs{K: "step", ID: sc.ID, I: k + 1, A: sc.Steps[k], T: t0, Outs: per[k-i], Logged: logged0, Ctx: ctx0, HCtx: hctx0,
+					Events: []sess.EvObs{}, Saves: []int{}}
+				if k == j-1 {
+					o.Logged, o.Ctx, o.HCtx, o.Events = w.S.IsLogged(), w.S.Context().Err() != nil, w.H.Context().Err() != nil, evs
+				}
+				recs = append(recs, o)
+			}
+			i = j - 1
+			continue
+		}
 		t0 := w.ms()
 		callErr := false
 		switch a.A {
@@ -298,20 +365,7 @@ func runWire(sc *sess.Scenario) (recs []interface{}, failure string) {
 			_ = w.peer.SetWriteDeadline(time.Now().Add(time.Second))
 			_, _ = w.peer.Write(raw) // a connection the library has closed: nothing is delivered, nothing comes back
 		}
-		raws := w.settle()
-		outs := []sess.Digest{}
-		for _, raw := range raws {
-			d := sess.MakeDigest(raw)
-			d.T = w.ms()
-			for j, old := range w.all {
-				if bytes.Equal(old, raw) {
-					d.DupOf = j + 1
-					break
-				}
-			}
-			w.all = append(w.all, raw)
-			outs = append(outs, d)
-		}
+		outs := digest(w.settle())
 		w.mu.Lock()
 		evs := w.evs
 		w.evs = nil
@@ -375,4 +429,131 @@ func TestWireSess(t *testing.T) {
 	f.Close()
 	fj, _ := json.Marshal(fails)
 	_ = os.WriteFile(filepath.Join(outDir, "fails.json"), fj, 0o644)
+}
+
+// ---- several sessions of ONE application at the same time (C05, C14): one acceptor, one options value, one unmarshaller object
+// installed in every session (Session.SetUnmarshaller), stores of their own (every other one slow); every client logs on under
+// its own identifier and sends its own TestRequests "qNNN" in bursts.  What each client receives is one WireTrace record.
+
+type slowStore struct{ *memory.Storage }
+
+func (s slowStore) Save(id fix.StorageID, m simplefixgo.SendingMessage, n int) error {
+	time.Sleep(300 * time.Microsecond)
+	return s.Storage.Save(id, m, n)
+}
+
+func TestWireShared(t *testing.T) {
+	outDir := os.Getenv("VERIF_STACK_OUT")
+	if outDir == "" {
+		t.Skip("VERIF_STACK_OUT not set")
+	}
+	const clients, perClient = 6, 100
+	l, err := net.Listen("tcp", "127.0.0.1:0")
+	if err != nil {
+		t.Fatal(err)
+	}
+	opts := sess.Opts([]string{"0"})
+	var nmu sync.Mutex
+	nsess := 0
+	acc := simplefixgo.NewAcceptor(l, simplefixgo.NewAcceptorHandlerFactory(fixgen.FieldMsgType, 10), 2*time.Second,
+		func(h simplefixgo.AcceptorHandler) {
+			nmu.Lock()
+			k := nsess
+			nsess++
+			nmu.Unlock()
+			mem := memory.NewStorage()
+			var ms session.MessageStorage = mem
+			if k%2 == 0 {
+				ms = slowStore{mem}
+			}
+			s, err := session.NewAcceptorSession(opts, h, &session.LogonSettings{LogonTimeout: 30 * time.Second, CloseTimeout: time.Second,
+				HeartBtLimits: &session.IntLimits{Min: 1, Max: 60}}, func(*session.LogonSettings) error { return nil }, mem, ms)
+			if err != nil {
+				return
+			}
+			s.SetUnmarshaller(sess.SharedUnmarshaller(true))
+			_ = s.Run()
+		})
+	go func() { _ = acc.ListenAndServe() }()
+	defer func() { acc.Close(); l.Close() }()
+	recs := make([]sess.WireObs, clients)
+	var wg sync.WaitGroup
+	start := make(chan struct{})
+	for k := 0; k < clients; k++ {
+		k := k
+		wg.Add(1)
+		go func() {
+			defer wg.Done()
+			me := "P" + string(rune('0'+k))
+			o := sess.WireObs{K: "wire", ID: "shared/" + me, Kind: "shared", Feasible: true, Order: []int{}, ExpEcho: []int{},
+				ExpSender: sess.Ints([]byte("SRV")), ExpTarget: sess.Ints([]byte(me)), Msgs: []sess.WireRec{}}
+			defer func() { recs[k] = o }()
+			c, err := net.Dial("tcp", l.Addr().String())
+			if err != nil {
+				return
+			}
+			defer c.Close()
+			var buf, all = []byte{}, [][]byte{}
+			t0 := time.Now()
+			echoes := 0
+			read := func(until func() bool, d time.Duration) {
+				deadline := time.Now().Add(d)
+				tmp := make([]byte, 65536)
+				for !until() && time.Now().Before(deadline) {
+					_ = c.SetReadDeadline(time.Now().Add(100 * time.Millisecond))
+					n, err := c.Read(tmp)
+					buf = append(buf, tmp[:n]...)
+					for {
+						m, rest, ok := cut(buf)
+						if !ok {
+							break
+						}
+						w := sess.WireRecOf(append([]byte{}, m...), &all, time.Since(t0).Milliseconds())
+						if w.Ty == "0" && len(w.Trid) > 0 {
+							echoes++
+						}
+						o.Msgs = append(o.Msgs, w)
+						buf = append([]byte{}, rest...)
+					}
+					if err != nil {
+						if ne, ok := err.(net.Error); ok && ne.Timeout() {
+							continue
+						}
+						return
+					}
+				}
+			}
+			seq := 1
+			lg := &sess.Action{A: "logon", Seq: seq, Sq: "ok", Integ: "none", Hb: 30, Enc: "0", Cred: true, ID: []int{}}
+			_, _ = c.Write(sess.Inbound(lg, me, "SRV", tsNow()))
+			read(func() bool { return len(o.Msgs) >= 1 }, 3*time.Second)
+			<-start
+			for n := 0; n < perClient; {
+				var chunk []byte
+				for j := 0; j < 10 && n < perClient; j, n = j+1, n+1 {
+					seq++
+					num := k*perClient + n
+					o.ExpEcho = append(o.ExpEcho, num)
+					id := []int{'q', '0' + num/100, '0' + num/10%10, '0' + num%10}
+					a := &sess.Action{A: "testreq", Seq: seq, Sq: "ok", Integ: "none", Enc: "0", Cred: true, ID: id}
+					chunk = append(chunk, sess.Inbound(a, me, "SRV", tsNow())...)
+				}
+				_, _ = c.Write(chunk)
+				read(func() bool { return true }, 0)
+			}
+			read(func() bool { return echoes >= perClient }, 8*time.Second)
+		}()
+	}
+	time.Sleep(300 * time.Millisecond) // every client is logged on: the bursts start together
+	close(start)
+	wg.Wait()
+	f, err := os.Create(filepath.Join(outDir, "shared.ndjson"))
+	if err != nil {
+		t.Fatal(err)
+	}
+	enc := json.NewEncoder(f)
+	for _, r := range recs {
+		_ = enc.Encode(r)
+	}
+	f.Close()
 }
